@@ -5,7 +5,6 @@ import (
 	"fmt"
 	"os"
 	"path/filepath"
-	"sort"
 	"strings"
 	"sync"
 	"time"
@@ -65,42 +64,49 @@ func verifyOne(w *World, con *Contract, dir string, timeout time.Duration, filte
 	return rep
 }
 
-func solveAll(rep *FuncReport, dir string, timeout time.Duration, par int) {
-	vc := rep.VC
-	rep.Results = make([]SolveResult, len(vc.obls))
+// solveReports discharges the obligations of all reports through one pool of workers.
+func solveReports(reps []*FuncReport, dir string, timeout time.Duration, par int) {
 	sem := make(chan struct{}, par)
 	var wg sync.WaitGroup
-	sub := filepath.Join(dir, sanitize(rep.Key))
-	os.MkdirAll(sub, 0o755)
-	for i, o := range vc.obls {
-		if o.Goal == T && o.Expect != "sat" {
-			rep.Results[i] = SolveResult{Status: "unsat", Solver: "syntactic"}
+	for _, rep := range reps {
+		if rep.Err != nil || rep.VC == nil {
 			continue
 		}
-		if o.PC == F {
-			if o.Expect == "sat" {
+		rep := rep
+		vc := rep.VC
+		rep.Results = make([]SolveResult, len(vc.obls))
+		sub := filepath.Join(dir, sanitize(rep.Key))
+		os.MkdirAll(sub, 0o755)
+		for i, o := range vc.obls {
+			if (o.Goal == T && o.Expect != "sat") || o.PC == F {
 				rep.Results[i] = SolveResult{Status: "unsat", Solver: "syntactic"}
-			} else {
-				rep.Results[i] = SolveResult{Status: "unsat", Solver: "syntactic"}
+				continue
 			}
-			continue
+			wg.Add(1)
+			go func(i int, o *Obl) {
+				defer wg.Done()
+				sem <- struct{}{}
+				defer func() { <-sem }()
+				file, n, err := vc.emit(o, sub, i)
+				if err != nil {
+					rep.Results[i] = SolveResult{Status: "unknown", Output: err.Error()}
+					return
+				}
+				to := timeout
+				if o.Expect == "sat" && to > 2*time.Second {
+					to = 2 * time.Second // vacuity: only a quick "unsat" matters
+				}
+				r := race(file, to, o.Expect)
+				r.Bytes = n
+				rep.Results[i] = r
+			}(i, o)
 		}
-		wg.Add(1)
-		go func(i int, o *Obl) {
-			defer wg.Done()
-			sem <- struct{}{}
-			defer func() { <-sem }()
-			file, n, err := vc.emit(o, sub, i)
-			if err != nil {
-				rep.Results[i] = SolveResult{Status: "unknown", Output: err.Error()}
-				return
-			}
-			r := race(file, timeout, o.Expect)
-			r.Bytes = n
-			rep.Results[i] = r
-		}(i, o)
 	}
 	wg.Wait()
+}
+
+func solveAll(rep *FuncReport, dir string, timeout time.Duration, par int) {
+	solveReports([]*FuncReport{rep}, dir, timeout, par)
 }
 
 func cmdVerify(args []string) {
@@ -165,7 +171,3 @@ func cmdVerify(args []string) {
 	}
 }
 
-func cmdCheck(args []string) {
-	fmt.Println("not yet")
-	_ = sort.Strings
-}
